@@ -37,6 +37,9 @@ def prototypes(rng, K, D, complex_):
     return P, 0.0
 
 
+_C3 = [0]
+
+
 def make_scene(rng, name, tier, force=None):
     K = int(rng.integers(2, 5))
     D = int(rng.integers(K, 9))
@@ -44,10 +47,22 @@ def make_scene(rng, name, tier, force=None):
         D = min(D, 4)
         K = min(K, D)
     sizes = [int(D + 2 + rng.integers(0, 8)) for _ in range(K)]
+    _C3[0] += 1
+    big_class = _C3[0] % 8 == 0 and name != 'cbmm' and not force
+    if big_class:
+        # "any class sizes >= D + 2": one class with a few thousand observations next to small ones.  The start is the
+        # hard true partition (a blur would hand each small class more mass from the big class than it owns, and no EM
+        # keeps such a partition) and the perturbations are heavy tailed: most members sit 100x closer to the prototype
+        sizes[int(rng.integers(0, K))] = int(rng.integers(1600, 4000))
     lab = np.concatenate([np.full(s, k) for k, s in enumerate(sizes)])
     lab = lab[rng.permutation(len(lab))]
     N = len(lab)
     pert = float(rng.choice([0.0, 1e-4, 1e-2]))
+    pw = 1.0
+    if big_class:
+        pert = 1e-2
+        pw = np.full((N, 1), 1e-2)                                              # per-observation level, at most 1e-2:
+        pw[int(rng.integers(0, N)), 0] = 1.0                                    # one member at the full level
     if name in ('gmm', 'gcacgmm') and pert == 0.0:
         pert = 1e-4       # a Gaussian with exactly zero class variance is not defined (sklearn's Cholesky raises ValueError)
     F = int(rng.integers(1, 3)) if name in mm.INTEGRATION else None
@@ -56,7 +71,7 @@ def make_scene(rng, name, tier, force=None):
 
     def complex_stream(shape_lead):
         P, mc = prototypes(rng, K, D, True)
-        z = P[lab] + pert * mm.crandn(rng, (N, D)) / np.sqrt(2 * D)
+        z = P[lab] + pert * pw * mm.crandn(rng, (N, D)) / np.sqrt(2 * D)
         # "any per-frame complex gains": magnitudes over many decades (frames of a quiet and a loud passage)
         g = 10.0 ** rng.uniform(-8, 8, size=(N, 1)) * np.exp(2j * np.pi * rng.random((N, 1)))
         return z * g, P, mc
@@ -65,9 +80,9 @@ def make_scene(rng, name, tier, force=None):
         P, mc = prototypes(rng, K, E, False)
         if as_means:
             P = P * float(rng.uniform(1.0, 5.0))
-            y = P[lab] + pert * rng.normal(size=(N, E)) / np.sqrt(E)
+            y = P[lab] + pert * pw * rng.normal(size=(N, E)) / np.sqrt(E)
         else:
-            y = (P[lab] + pert * rng.normal(size=(N, E)) / np.sqrt(E)) * 10.0 ** rng.uniform(-8, 8, size=(N, 1))
+            y = (P[lab] + pert * pw * rng.normal(size=(N, E)) / np.sqrt(E)) * 10.0 ** rng.uniform(-8, 8, size=(N, 1))
         return y, P, mc
     if name in mm.COMPLEX_MODELS:
         y, P, mc = complex_stream(())
@@ -94,7 +109,7 @@ def make_scene(rng, name, tier, force=None):
         data['embedding'] = np.stack(emb)
         protos = {'spatial': np.stack(Ps), 'spectral': np.stack(Pe)}
     blur = float(rng.choice([0.0, 0.1, 0.3, 0.45]))
-    if force:
+    if force or big_class:
         blur = 0.0
     onehot = np.eye(K)[lab].T                                  # (K, N)
     noise = rng.random((K, N))
@@ -142,7 +157,7 @@ def evaluate(rp, rng):
     init, lab, protos = np.array(rp['init']), np.array(rp['labels']), {k: np.array(v) for k, v in rp['protos'].items()}
     K = init.shape[-2]
     try:
-        model, trace = mm.fit(name, data, init, iterations=rp['iterations'])
+        model, trace = mm.fit(name, data, init, iterations=rp['iterations'], **(rp.get('opts') or {}))
         aff = mm.predict(name, model, data)
     except Exception as e:
         cls = 'exact-prototypes' if rp.get('pert', 1.0) == 0.0 else 'perturbed'
@@ -197,13 +212,15 @@ def evaluate(rp, rng):
     # correspondence of the last M-step with the model (C08 machinery) on this scene
     coq = None
     try:
+        if init.shape[-1] > 400:
+            raise ValueError('no Coq literal for scenes with thousands of observations: the predicates above decide')
         rec = trace[-1]
         yn = mm.normalized(name, data)
         lead = init.shape[:-2]
         li = tuple(int(rng.integers(0, n)) for n in lead)
         k = int(rng.integers(0, K))
         salv = np.ones(lead + init.shape[-1:])
-        f, coq = c08.mstep_check(name, rec['model'], yn, data, rec['affiliation'], salv, rec.get('quadratic_form'), {}, li, k, rng)
+        f, coq = c08.mstep_check(name, rec['model'], yn, data, rec['affiliation'], salv, rec.get('quadratic_form'), dict(rp.get('opts') or {}), li, k, rng)
         if f:
             return 'last M-step: ' + f, 'stable:mstep:%s' % name, None
     except Exception:
@@ -222,6 +239,10 @@ def make(rng, tier, name=None, force=None):
             protos['spectral'][f] = protos['spectral'][0]
     rp = {'model': name, 'data': data, 'init': init, 'labels': lab, 'protos': protos, 'iterations': info['iterations'],
           'pert': info['pert'], 'blur': info['blur']}
+    if name in ('vmfmm', 'vmfcacgmm') and rng.random() < 0.5:
+        # a configuration: the concentration cap (tight classes reach it)
+        rp['opts'] = {'max_concentration': float(rng.choice([100, 1000, 3000]))}
+        info['opts'] = rp['opts']
     label = 'separable scene %s %s' % (name, info)
     fail, key, coq = evaluate(rp, rng)
     nt = info['max_cos'] > 0.02 and info['blur'] > 0 and len(set(info['sizes'])) > 1
